@@ -188,6 +188,42 @@ pub fn judge(c: &Case, st: &mut Stats) -> Verdict {
                     )
                 }
             }
+            // inside a container type of the caller's own (an SSL-style TLV that holds other TLVs): its `write_to` obtains the
+            // encoding of what it holds with `to_bytes()`, and the container itself is converted with `to_bytes()` as well as
+            // written into a writer - conversions nest
+            if e.len() + 5 <= 65535 {
+                struct Container<'a>(&'a Val, &'a [u8]);
+                impl<'a> WriteToHeader for Container<'a> {
+                    fn write_to(&self, w: &mut Writer) -> std::io::Result<usize> {
+                        let inner = bld::to_bytes_val(self.0, self.1)?;
+                        std::io::Write::write_all(w, &[0x01, 0, 0, 0, 0])?;
+                        std::io::Write::write_all(w, &inner)?;
+                        Ok(5 + inner.len())
+                    }
+                }
+                let mut want = vec![0x01u8, 0, 0, 0, 0];
+                want.extend_from_slice(&e);
+                let nested = crate::engine::guard(|| {
+                    let c2 = Container(&c.val, &data);
+                    let tb = c2.to_bytes().map_err(|e| format!("{:?}", e.kind()));
+                    let mut w = Writer::default();
+                    let r = c2.write_to(&mut w).map_err(|e| format!("{:?}", e.kind()));
+                    (tb, r, w.finish())
+                });
+                match nested {
+                    Ok((Ok(tb), Ok(n), out)) if tb == want && out == want && n == want.len() => {}
+                    other => {
+                        return fail(
+                            "nested-conversion",
+                            format!("a caller's container that calls to_bytes() on this value inside its own write_to: {} bytes both ways", want.len()),
+                            match other {
+                                Ok((tb, r, out)) => format!("to_bytes {:?} bytes, write_to {:?} with {} bytes", tb.map(|b| b.len()), r, out.len()),
+                                Err(p) => format!("panic: {}", p),
+                            },
+                        )
+                    }
+                }
+            }
             // through a reference
             let by_ref = crate::engine::guard(|| {
                 let mut w = Writer::from(prefill.clone());
